@@ -671,8 +671,8 @@ fn gen_ext_task(rng: &mut Rng, origin: String) -> ExtTask {
         }
         asp::Program { rules }
     };
-    let left_privs: Vec<&str> = if g.rng.chance(1, 2) { vec!["aux", "q"] } else { vec!["q", "r"] };
-    let right_privs: Vec<&str> = if g.rng.chance(1, 2) { vec!["aux", "q"] } else { vec!["q_p", "q"] };
+    let left_privs: Vec<&str> = match g.rng.below(5) { 0 | 1 => vec!["aux", "q"], 2 | 3 => vec!["q", "r"], _ => vec!["q", "q_p"] };
+    let right_privs: Vec<&str> = match g.rng.below(5) { 0 | 1 => vec!["aux", "q"], 2 | 3 => vec!["q_p", "q"], _ => vec!["q_p1", "q_p", "q"] };
     let program = mk_program(&mut g, &right_privs);
     let _ = privs;
     // user guide
